@@ -111,3 +111,92 @@ V("C06-benign-helper", "C06", "store + unmark extracted into a helper", CORE, ex
         \"\"\"
         Validate a configuration value and set it."""),
 ])
+
+# ------------------------------------------------------------------------------------------ C01
+V("C01-load-direct-store", "C01", "load_tree writes Field values into _data directly", CORE,
+  """            self._set_value(key, value)
+
+        if validate:""",
+  """            if isinstance(field, Field):
+                self._data[key] = value
+            else:
+                self._set_value(key, value)
+
+        if validate:""", expect_rule="gateway.validated-store @ Config.load_tree")
+V("C01-insert-raw", "C01", "ListProxy.insert hands the raw item to list.insert", LIST,
+  "        super().insert(index, self._validate(item))", "        super().insert(index, item)",
+  expect_rule="taint @ ListProxy.insert")
+V("C01-url-no-super", "C01", "UrlField._validate no longer chains to StringField._validate", URL,
+  "        value = super()._validate(cfg, value)\n", "", expect_rule="super-chain @ UrlField._validate")
+V("C01-validate-skips-_validate", "C01", "Field.validate skips the subclass hook", CORE,
+  "        value = self._validate(cfg, value)\n        if self.validator:", "        if self.validator:",
+  expect_rule="validate.chain @ Field.validate")
+V("C01-setdefault-swapped", "C01", "DictProxy.setdefault swaps validated key and value", DICT,
+  "        key, value = self._validate(key, value)\n        super().setdefault(key, value)",
+  "        value, key = self._validate(key, value)\n        super().setdefault(key, value)",
+  expect_rule="taint @ DictProxy.setdefault")
+V("C01-insert-deleted", "C01", "ListProxy.insert override deleted (inherits list.insert)", LIST,
+  "    def insert(self, index: int, item: Any) -> None:\n        super().insert(index, self._validate(item))\n",
+  "", expect_rule="override @ ListProxy")
+V("C01-validate-result-dropped", "C01", "_set_value stores the raw value, not validate()'s result", CORE,
+  "                value = field.validate(self, value)\n            except ValidationError:",
+  "                checked = field.validate(self, value)\n            except ValidationError:",
+  expect_rule="gateway.validated-store @ Field.__setval__")
+V("C01-ior-deleted", "C01", "DictProxy.__ior__ removed again (D11 re-introduced)", DICT,
+  """    def __ior__(self, other: KeyValuePairs) -> "DictProxy":  # type: ignore[override,misc]
+        self.update(other)
+        return self
+""", "", expect_rule="override @ DictProxy")
+V("C01-strfield-no-return", "C01", "StringField._validate falls off the end", STR,
+  "            raise ValueError(\"value is not a valid choice\" + postfix)\n\n        return value\n",
+  "            raise ValueError(\"value is not a valid choice\" + postfix)\n",
+  expect_rule="validator.returns @ StringField._validate")
+V("C01-env-default-raw", "C01", "environment value stored as default without validation", CORE,
+  """                try:
+                    env_value = self.validate(cfg, env_value)
+                except ValidationError:
+                    raise
+                except Exception as exc:
+                    raise ValidationError(cfg, self, exc) from exc
+                else:
+                    value = env_value""",
+  """                value = env_value""", expect_rule="default-store")
+V("C01-update-kwargs-raw", "C01", "DictProxy.update passes keyword entries straight to dict.update", DICT,
+  """        for key, value in kwargs.items():
+            self.__setitem__(key, value)""",
+  """        super().update(**kwargs)""", expect_rule="taint @ DictProxy.update")
+V("C01-benign-helper-store", "C01", "validated store moved behind a helper taking (field, value)", CORE, expect="silent",
+  edits=[(CORE, """                field.__setval__(self, value)
+                self._default_value_keys.discard(key)
+                return value""",
+          """                self._store(field, key, value)
+                return value"""),
+         (CORE, """    def __setattr__(self, name: str, value: Any) -> Any:
+        \"\"\"
+        Validate a configuration value and set it.""",
+          """    def _store(self, field: Field, key: str, value: Any) -> None:
+        field.__setval__(self, value)
+        self._default_value_keys.discard(key)
+
+    def __setattr__(self, name: str, value: Any) -> Any:
+        \"\"\"
+        Validate a configuration value and set it.""")])
+V("C01-benign-rename", "C01", "locals renamed in _set_value", CORE, expect="silent",
+  edits=[(CORE, """                value = field.validate(self, value)
+            except ValidationError:
+                raise
+            except Exception as err:
+                raise ValidationError(self, field, err) from err
+            else:
+                field.__setval__(self, value)
+                self._default_value_keys.discard(key)
+                return value""",
+          """                checked = field.validate(self, value)
+            except ValidationError:
+                raise
+            except Exception as err:
+                raise ValidationError(self, field, err) from err
+            else:
+                field.__setval__(self, checked)
+                self._default_value_keys.discard(key)
+                return checked""")])
